@@ -129,9 +129,22 @@ class Corpus:
 
     def add(self, payload, labelmsm=1, keep_msg=False, lbl=True, via="ctor", frame=None, validate=1, **meta):
         rid = len(self.recs) + 1
+        omit = None
         try:
             with common.watchdog(30):
-                r, msg = decode_rec.record_decode(rid, payload, labelmsm, via=via, frame=frame, validate=validate)
+                if rid % 4 == 3 and via == "ctor" and payload is not None and len(payload) > 4:
+                    # history dimension: a REJECTED decode first - a prefix of the same payload, cut
+                    # somewhere after the identity - then the decode that is recorded
+                    k = 3 + (rid * 7919) % (len(payload) - 3)
+                    decode_rec.record_decode(0, bytes(payload)[:k], labelmsm)
+                    meta["after_rejected_prefix"] = k
+                elif rid % 4 == 1 and payload is not None and len(payload) >= 2 and labelmsm == 1 and labelmsm is not True:
+                    # history dimension: the same bytes through the static parser with NON-default options
+                    # first; the recorded decode then leaves its (default) options out
+                    decode_rec.record_decode(0, None, 2, via="parse", frame=decode_rec.frame_of(bytes(payload)), validate=0)
+                    omit = True
+                    meta["after_nondefault_options"] = True
+                r, msg = decode_rec.record_decode(rid, payload, labelmsm, via=via, frame=frame, validate=validate, omit=omit)
         except common.Watchdog:
             r, msg = decode_rec.record_decode(rid, b"", labelmsm)      # placeholder record
             r.update(p=list(payload or b""), out="raise", cls="Watchdog(no termination)", lib=False)
